@@ -9,7 +9,7 @@ import vlib, vaultlib
 ASSUME = ["spec/Vault.tla is the reference semantics (a failed or duplicate Create leaves the store unchanged; Delete removes exactly one plan)",
           "an object that cannot be encoded = an action whose request type has a channel field (every action position of shapes S1..S4)",
           "sqlite: rows counted per plan id in plans/blocks/checks/sequences/actions through Vault.Pool(); cosmosdb: the fake client's tables are not reachable, Read and Exists of every model id are compared instead",
-          "a write refused by the backend can only be injected in the cosmosdb fake (VerifFake.FailCreate, whole batch); a failure between the plan batch and the search-index batch of cosmosdb Create cannot be injected",
+          "a write refused by the backend can only be injected in the cosmosdb fake: every batch (VerifFake.FailCreate) or only the second transactional batch of the Create (VerifFake.FailBatch: the search-record batch, or - for a plan of more than 100 objects, shape S5 - whatever an implementation does second)",
           "process death is exercised in the thorough tier only (kill -9 at seeded instants, sqlite file store); machine crash / power loss is not covered"]
 
 
@@ -17,6 +17,7 @@ def run(prop, tier, seed, replay=None):
     quick = tier == "quick"
     gens = [dict(cfg="VaultC14Seq.cfg", consts={"MaxLen": 3 if quick else 4}, timeout=1500),
             dict(cfg="VaultC14Cover.cfg", consts={} if quick else {"CIds": '{"p1","p2","p3"}', "ShapeNames": '{"S2","S4"}'}, timeout=1500),
+            dict(cfg="VaultC14Big.cfg", consts={"MaxLen": 2 if quick else 3}, timeout=1500),
             dict(cfg="VaultC14Sim.cfg", simulate="num=%d" % (120 if quick else 5000), depth=21, timeout=200 if quick else 900)]
     if not quick:
         gens.append(dict(cfg="VaultC14Seq.cfg", consts={"MaxLen": 3, "ShapeNames": '{"S1","S2"}', "Ops": '{"Create","CreateFail","Delete","UpdatePlan"}'}, timeout=1500))
@@ -27,7 +28,7 @@ def run(prop, tier, seed, replay=None):
             return []
         return [vlib.run_go_seq("TestVaultCrash", os.devnull, tag="c14crash", timeout=3000, env_extra={"VH_CRASH": str(rounds), "VH_SEED": str(seed)})]
 
-    rule = ("every history of length %d of Create / duplicate Create / unencodable Create / refused Create / Delete / UpdatePlan over 2 creatable ids + 1 never created; a transition cover "
+    rule = ("every history of length %d of Create / duplicate Create / unencodable Create / Create refused at its first or second storage operation / Delete / UpdatePlan over 2 creatable ids + 1 never created; a transition cover "
             "(one history per (store, operation) pair) with the unencodable request at EVERY action position of shapes S2,S3,S4; seeded random histories of length 20; after every writing step "
             "Read of every id and a row census of every table; %d kill -9 rounds during Create on a file-backed store" % (3 if quick else 4, rounds))
     return vaultlib.run(prop, tier, seed, gens, rule, ASSUME, replay, extra_results=crash, extra={"crash_rounds": rounds})
